@@ -11,7 +11,11 @@ SPEC = {
              "SessionManager.RegisterControlConnection -> ClientRegistry.Register (control cap, evict-oldest; `ctrlx`: the registry "
              "itself with stream doubles whose Close() is a gate, so a registration can be stopped inside the Close() of its victim "
              "while others run: caps 0,1,2,5 x occupancy cap-1, cap x 2-3 threads x 1-2 registrations, all interleavings), "
-             "TunnelRegistry.Register, "
+             "TunnelRegistry.Register, the slot life cycle of the mapping handler (`slot` cases: the handler runs over a wrapper "
+             "of its real tunnel manager whose RegisterTunnel is a gate before and after, so Tunnel.Close can land before the "
+             "registration, in the window before Tunnel.Start, or after the start; all schedules of steps and closes of 2 "
+             "connections of length 6 (thorough 7), histories with 1-2 tunnels closed at each point of their life followed by "
+             "limit+1 complete openings, random schedules of up to limit+3 connections), "
              "BaseMappingHandler.handleConnection (per-mapping limit from the mapping config and from the user quota; real Tunnel objects "
              "over net.Pipe), conncode.Service.CreateConnectionCode over ConnectionCodeRepository over a gated memory storage (one step = "
              "one storage call) and ActivateConnectionCode with gated GetClientPortMappings/CreatePortMapping over the real port-mapping "
@@ -37,6 +41,7 @@ SPEC = {
         "TunnelRegistry.Register, acquireConnectionSlot, releaseConnectionSlot, connectionLimit, CountActiveByTargetClient and call "
         "skeletons with lock/defer/guarded-field facts of handleConnection, CreateConnectionCode, ActivateConnectionCode, "
         "ListByTargetClient, ConnectionCodeRepository.Create/GetByID/GetByCode regenerated into Gen/Limits.lean and pinned by theorems",
+        "shim BaseMappingHandler.VerifSetTunnelManager (installs the gated wrapper of the handler's own tunnel manager)",
         "harness /verif/harness/c17: gate, gated storage and repository wrappers, fake reader / client / adapter, goroutine-dump "
         "recognition of a thread parked in sync.Mutex/RWMutex of repo code (three consecutive dumps); one shim only: "
         "BaseMappingHandler.VerifHandleConnection -> handleConnection",
@@ -68,6 +73,9 @@ SPEC = {
         "injectable calls that are NOT gated: the Close() of the stream of a connection refused late by CreateConnection (it runs "
         "after the lock was released and after the refusal is decided), loggers",
         "expiry of codes / mappings, storage faults and the stale-connection sweep are outside this property's quantifier",
+        "slot cases: the counter activeConnCount itself is not read (private); theorem C17_slot_counter proves 0 <= count <= "
+        "limit on the model, the harness sees a negative counter through its consequence (an acquisition while `limit` slots are "
+        "held, then more than `limit` live tunnels)",
         "internal/stream/quota_enforcer.go enforces traffic quotas only (no count limits) and is not modelled",
         "free-running cases are decided by holdsFree (cap on the maximum and on the final occupancy, bookkeeping, no state change "
         "when everything was refused); they are observed, not proved",
